@@ -93,8 +93,13 @@ def handler_wiring(ctx, r1, pr, f, bb):
                 ok = len(rs) == 1 and list(rs)[0].startswith("C:cosmwasm_std::Uint128::checked_sub@") and len(subs) == 1 and \
                     set(ctx.roots(subs[0][4][0])) == {"%s[%d].amount" % (QP, k)} and set(ctx.roots(subs[0][4][1])) == {P_(swap, offer_i, ".amount")}
                 if ok:
-                    pg = common.propagated(P, swap, subs[0][2])
-                    ok = pg is not None and common.fail_edge_only_errors(P, swap, pg[2])[0]
+                    sfn = P.fn(str(subs[0][1])) or P.fn(str(subs[0][1]).rsplit("#", 1)[0]) or swap      # the subtraction may sit in the selector helper
+                    pg = common.propagated(P, sfn, subs[0][2])
+                    ok = pg is not None and common.fail_edge_only_errors(P, sfn, pg[2])[0]
+                    if ok and sfn.path != swap.path:
+                        # .. whose own failure must end the swap
+                        hb_ = [b_ for b_, p_, fr_, t_ in P.calls(swap) if p_ and (P.fn(p_) or P.fn(generic_path(p_))) is not None and (P.fn(p_) or P.fn(generic_path(p_))).path == sfn.path]
+                        ok = len(hb_) == 1 and common.propagated(P, swap, hb_[0]) is not None and common.fail_edge_only_errors(P, swap, common.propagated(P, swap, hb_[0])[2])[0]
                 if not ok:
                     r1.fail("C01.R1:offer-reserve:%d" % k, swap.path, common.span_of_block_term(swap, bb),
                             "case `offer is pools[%d]`: offer reserve ⊢ %s, expected pools[%d].amount - offer.amount by aborting subtraction (the offer is already in the balance)" % (k, sorted(rs), k))
